@@ -221,8 +221,8 @@ def judge(x):
             if not ok and r[4] is not None and r[0] <= e_:
                 # the read was performed by another call that itself overlaps a block overlapping c
                 c2 = calls[r[4]]
-                if any(overlaps(b, c2) for b in ov):
-                    ok = True
+                if c2[5] is not None and any(overlaps(b, c2) for b in ov):
+                    ok = True          # (two threads' blocks on ONE object share the cache of the first: its reads count)
             if not ok:
                 out.append(("stale-value:%s:%s" % (mm, "plain" if bi is None else "in-block"),
                             "thread %s %s() [%d..%d] returned %s version %d read at time %d by thread %s; blocks overlapping: %r"
